@@ -1,5 +1,5 @@
 //! unit: u07
-//! properties: C07
+//! properties: C07 C06
 //! note: on-chain claim fee bumping: compute_fee_from_spent_amounts / feerate_bump (package.rs) and the fee-estimator floor wrapper (chaininterface.rs)
 //! trusted: assume_specification for core::cmp::max / core::cmp::min / Result::unwrap_or (std definitions); trait FeeEstimator is reduced to get_est_sat_per_1000_weight with an unconstrained result (any estimator); trait Logger empty (R3 removes log statements)
 //! assume: compute_package_feerate: the fee estimator never returns more than u32::MAX/5 = 858_993_459 sat/kW (`feerate_estimate * 5` is computed in u32; observation O4 in DESIGN)
@@ -70,7 +70,7 @@ pub open spec fn valid_w(w: u64) -> bool { 100 <= w <= 4_000_000 }
 //@ret r
 //@requires
     valid_w(predicted_weight), input_amounts <= 21_000_000_0000_0000, 1 <= previous_feerate <= u32::MAX, dust_limit_sats >= 1,
-//@ensures P C07 fees-are-raised-monotonically-real-bumps-respect-BIP125-and-never-go-into-dust
+//@ensures P C07,C06 fees-are-raised-monotonically-real-bumps-respect-BIP125-and-never-go-into-dust
     r is Some ==> ({ let (fee, rate) = r->Some_0;
         let previous_fee = previous_feerate * predicted_weight / 1000;
         // (P) fees are raised monotonically
@@ -196,7 +196,7 @@ impl PackageTemplate {
 //@requires
     current_height <= 0x7fff_ffff, self.counterparty_spendable_height <= 0x7fff_ffff,
     forall|k: int| 0 <= k < self.inputs@.len() ==> input_sane(#[trigger] self.inputs@[k].1),
-//@ensures P C07 next-bump-is-in-the-future-at-most-15-blocks-away-and-every-block-when-a-deadline-is-within-3
+//@ensures P C07,C06 next-bump-is-in-the-future-at-most-15-blocks-away-and-every-block-when-a-deadline-is-within-3
     current_height < r <= current_height + LOW_FREQUENCY_BUMP_INTERVAL,
     r == current_height + 1 || r == current_height + 3 || r == current_height + 15,
     forall|k: int| 0 <= k < self.inputs@.len() && deadline_of(#[trigger] self.inputs@[k].1, self.counterparty_spendable_height) is Some
